@@ -11,6 +11,7 @@ CONSTANTS
   Triples = FALSE
   EmitStride = 0
   EmitOffset = 0
+  CheckPos = FALSE
 SPECIFICATION Spec
 INVARIANT Agree
 INVARIANT SplitAgree
